@@ -36,8 +36,19 @@ def register(type_, reduce_function):
 def _reduce_method(m):
     if m.__self__ is None:
         return getattr, (m.__class__, m.__func__.__name__)
-    else:
+    elif isinstance(m.__self__, type):
+        # class method: the plain function cannot be pickled by reference
         return getattr, (m.__self__, m.__func__.__name__)
+    else:
+        # Rebuild the method from the very function and the very object it
+        # binds: looking the name up on the object can find another function
+        # (an override when the method was reached through super(), a method
+        # defined later under the same name, a name-mangled attribute).
+        return _rebuild_method, (m.__func__, m.__self__)
+
+
+def _rebuild_method(func, obj):
+    return types.MethodType(func, obj)
 
 
 class _C:
